@@ -1,6 +1,6 @@
 From Coq Require Import ZArith List String Bool.
 Import ListNotations.
-From TD Require Import Lib.Sexp Spec.PySlice Model.C03_Index Spec.C03_TorchIndex.
+From TD Require Import Lib.Sexp Spec.PySlice Model.C03_Index Spec.C03_TorchIndex Spec.C03_TorchSel.
 Open Scope string_scope.
 
 Definition dec_item (s : sexp) : option item :=
@@ -27,6 +27,22 @@ Definition enc_item (it : item) : sexp :=
   | IAdv0 => SA "adv0"
   | IAdv sh => SL [SA "adv"; enc_list enc_nat sh]
   | IMask sh c => SL [SA "mask"; enc_list enc_nat sh; enc_nat c]
+  end.
+
+Definition dec_vitem (s : sexp) : option vitem :=
+  match s with
+  | SL [SA "int"; SZ i] => Some (VInt i)
+  | SL [SA "sl"; a; b; c] =>
+      match dec_opt dec_Z a, dec_opt dec_Z b, dec_opt dec_Z c with
+      | Some a, Some b, Some c => Some (VSl a b c) | _, _, _ => None end
+  | SA "non" => Some VNone
+  | SA "ell" => Some VEll
+  | SL [SA "adv0"; SZ i] => Some (VAdv0 i)
+  | SL [SA "adv"; sh; vals] =>
+      match dec_list dec_nat sh, dec_list dec_Z vals with Some sh, Some v => Some (VAdv sh v) | _, _ => None end
+  | SL [SA "mask"; sh; pos] =>
+      match dec_list dec_nat sh, dec_list (dec_list dec_nat) pos with Some sh, Some p => Some (VMask sh p) | _, _ => None end
+  | _ => None
   end.
 
 Definition enc_res {A} (f : A -> sexp) (r : res A) : sexp :=
@@ -59,5 +75,10 @@ Definition dispatch (cmd : string) (args : list sexp) : option sexp :=
   | "set-action", [bs; idx; vbs] =>
       match dec_list dec_nat bs, dec_list dec_item idx, dec_list dec_nat vbs with
       | Some bs, Some idx, Some vbs => Some (enc_res enc_action (setitem_value_action bs idx vbs)) | _, _, _ => None end
+  | "sel-all", [bs; idx] =>
+      match dec_list dec_nat bs, dec_list dec_vitem idx with
+      | Some bs, Some idx => Some (enc_opt (enc_list (enc_opt (enc_list enc_Z))) (sel_all bs idx)) | _, _ => None end
+  | "is-view", [idx] =>
+      match dec_list dec_item idx with Some idx => Some (enc_bool (is_view idx)) | None => None end
   | _, _ => None
   end.
